@@ -14,9 +14,13 @@ import (
 	"testing"
 	"time"
 
+	"github.com/bokysan/socketace/v2/internal/util/buffers"
+	"github.com/bokysan/socketace/v2/internal/util/cert"
 	"github.com/bokysan/socketace/v2/internal/verifhook"
 	"github.com/bokysan/socketace/v2/internal/zzverif/e2e"
 	"github.com/bokysan/socketace/v2/internal/zzverif/vcommon"
+	ms "github.com/multiformats/go-multistream"
+	"github.com/xtaci/smux"
 )
 
 // ---- scripted independence -----------------------------------------------------------------
@@ -25,7 +29,7 @@ import (
 var otherStates = []string{"idle", "unread-c2t", "unread-t2c", "unread-both", "app-closed-target-open", "target-closed-app-open", "busy"}
 
 // operations issued on the connection under observation
-var ops = []string{"open+echo", "echo64k", "close-by-app", "close-by-target", "big-transfer", "refused-open"}
+var ops = []string{"open+echo", "echo64k", "close-by-app", "close-by-target", "big-transfer", "refused-open", "dead-target-open"}
 
 type scriptCase struct {
 	Carrier  string   `json:"carrier"`
@@ -144,10 +148,15 @@ func runScript(rec *vcommon.Rec, p *e2e.Pair, c *scriptCase) (stalled bool) {
 		others = append(others, h.key, h.key+1000)
 	}
 	var f *e2e.Failure
-	if c.Op == "refused-open" {
-		// a local connection for a channel the server refuses (that refusal is C03's subject) must not
-		// disturb the others: every idle held connection, and a new one, must still work afterwards
-		if bad, derr := p.Dial("chx"); derr == nil {
+	if c.Op == "refused-open" || c.Op == "dead-target-open" {
+		// a local connection for a channel the server refuses (that refusal is C03's subject), or for a channel
+		// whose target is down, must not disturb the others: every idle held connection, and a new one, must still
+		// work afterwards
+		lst := "chx"
+		if c.Op == "dead-target-open" {
+			lst = "chd"
+		}
+		if bad, derr := p.Dial(lst); derr == nil {
 			bad.Write([]byte("hello?"))
 			gone := e2e.Go(func() {
 				b := make([]byte, 64)
@@ -158,7 +167,7 @@ func runScript(rec *vcommon.Rec, p *e2e.Pair, c *scriptCase) (stalled bool) {
 				}
 			})
 			if e2e.Wait(gone) == e2e.Done {
-				rec.Stat("refused_opens_performed", 1)
+				rec.Stat(c.Op+"s_performed", 1)
 			}
 			bad.Close()
 		}
@@ -167,10 +176,10 @@ func runScript(rec *vcommon.Rec, p *e2e.Pair, c *scriptCase) (stalled bool) {
 				continue
 			}
 			if f = e2e.Duplex(h.app, h.tgt, &e2e.Stream{Key: h.key + 7, Len: 300}, &e2e.Stream{Key: h.key + 1007, Len: 300}, "c2t", "t2c", nil); f != nil {
-				f.Kind = "held-idle-connection-broken-after-a-refused-open:" + f.Kind
+				f.Kind = "held-idle-connection-broken-after-a-" + c.Op + ":" + f.Kind
 				break
 			}
-			rec.Stat("held_connections_verified_after_refused_open", 1)
+			rec.Stat("held_connections_verified_after_"+c.Op, 1)
 		}
 		if f != nil {
 			rec.Case(key, !f.Inconclusive)
@@ -198,7 +207,7 @@ func runScript(rec *vcommon.Rec, p *e2e.Pair, c *scriptCase) (stalled bool) {
 			return e2e.Duplex(app, tgt, &e2e.Stream{Key: obsKey, Len: n}, &e2e.Stream{Key: obsKey + 1000, Len: n}, "c2t", "t2c", others)
 		}
 		switch c.Op {
-		case "open+echo", "refused-open":
+		case "open+echo", "refused-open", "dead-target-open":
 			f = echo(100)
 		case "echo64k":
 			f = echo(65536)
@@ -267,7 +276,7 @@ func scriptCases(rec *vcommon.Rec, carrier string) []*scriptCase {
 			c.Others = append(c.Others, st)
 			c.Unread = append(c.Unread, u)
 		}
-		if c.Op == "refused-open" {
+		if c.Op == "refused-open" || c.Op == "dead-target-open" {
 			c.Others[0], c.Unread[0] = "idle", 0
 		}
 		out = append(out, c)
@@ -590,6 +599,117 @@ func runQuiet(rec *vcommon.Rec, carrier string, quiet time.Duration) {
 	rec.Stat("one_way_trickle_bytes_verified", sent)
 }
 
+// runSilentStream: a peer that drives the multiplexer by hand opens a logical connection and says nothing on it (the
+// stock client names the channel right after opening; another implementation, or a slow one, need not). That connection
+// is open and idle: the next one opened on the session must be served at once, and the silent one, too, once it speaks.
+func runSilentStream(rec *vcommon.Rec, carrier string) {
+	c := map[string]interface{}{"scenario": "opened-but-silent-connection", "carrier": carrier}
+	rec.Mark(c)
+	p, err := e2e.Start(e2e.Options{Carrier: carrier, Tag: "z", NoClient: true})
+	if err != nil {
+		rec.Violation("silent-stream:"+carrier+":setup-failed", c, err.Error())
+		return
+	}
+	defer p.Close()
+	up := p.NewUpstream()
+	if up == nil {
+		rec.Inconclusive("silent-stream: no upstream for "+carrier, c)
+		return
+	}
+	var cerr error
+	switch e2e.Wait(e2e.Go(func() { cerr = up.Connect(&cert.ClientConfig{InsecureSkipVerify: true}, false) })) {
+	case e2e.Stalled:
+		rec.Violation("silent-stream:"+carrier+":handshake-stalled", c, nil)
+		return
+	case e2e.Inconclusive:
+		rec.Inconclusive("silent-stream: busy", c)
+		return
+	}
+	if cerr != nil {
+		rec.Violation("silent-stream:"+carrier+":handshake-failed", c, cerr.Error())
+		return
+	}
+	cfg := smux.DefaultConfig()
+	cfg.MaxFrameSize = buffers.BufferSize - 128
+	sess, err := smux.Client(up, cfg)
+	if err != nil {
+		rec.Inconclusive("silent-stream: smux client: "+err.Error(), c)
+		return
+	}
+	defer sess.Close()
+	key := uint64(rec.Seed())*7919 + 100
+	// serve(stream): name the channel, wait for the target's connection, echo keyed data both ways
+	serve := func(st net.Conn, k uint64) *e2e.Failure {
+		var f *e2e.Failure
+		done := e2e.Go(func() {
+			if err := ms.SelectProtoOrFail("/echo", st); err != nil {
+				f = &e2e.Failure{Kind: "channel-selection-failed", Info: map[string]interface{}{"err": err.Error()}}
+				return
+			}
+			tgt, o := p.Targets["echo"].Next()
+			if o != e2e.Done {
+				f = &e2e.Failure{Kind: "target-never-connected", Inconclusive: o == e2e.Inconclusive}
+				return
+			}
+			defer tgt.Close()
+			f = e2e.Duplex(st, tgt, &e2e.Stream{Key: k, Len: 20000}, &e2e.Stream{Key: k + 1, Len: 20000}, "c2t", "t2c", nil)
+		})
+		switch e2e.Wait(done) {
+		case e2e.Stalled:
+			return &e2e.Failure{Kind: "stalled", Info: map[string]interface{}{"goroutines": e2e.Clip(e2e.Stacks(), 40000)}}
+		case e2e.Inconclusive:
+			return &e2e.Failure{Kind: "busy", Inconclusive: true}
+		}
+		return f
+	}
+	judge := func(step string, f *e2e.Failure) bool {
+		rec.Case("silent/"+carrier+"/"+step, f == nil || !f.Inconclusive)
+		if f == nil {
+			rec.Stat("silent_stream_steps_verified:"+step, 1)
+			return true
+		}
+		if f.Inconclusive {
+			rec.Inconclusive("silent-stream: "+f.Kind, c)
+		} else {
+			rec.Violation("silent-stream:"+carrier+":"+step+":"+f.Kind, c, f.Info)
+		}
+		return false
+	}
+	silent, err := sess.OpenStream()
+	if err != nil {
+		rec.Violation("silent-stream:"+carrier+":open-failed", c, err.Error())
+		return
+	}
+	defer silent.Close()
+	time.Sleep(100 * time.Millisecond) // the open frame is on its way; nothing else is said on this connection
+	second, err := sess.OpenStream()
+	if err != nil {
+		rec.Violation("silent-stream:"+carrier+":second-open-failed", c, err.Error())
+		return
+	}
+	if !judge("another-connection-while-one-is-silent", serve(second, key)) {
+		return
+	}
+	second.Close()
+	// a silent connection that goes away without ever having spoken
+	gone, err := sess.OpenStream()
+	if err == nil {
+		time.Sleep(50 * time.Millisecond)
+		gone.Close()
+	}
+	third, err := sess.OpenStream()
+	if err != nil {
+		rec.Violation("silent-stream:"+carrier+":third-open-failed", c, err.Error())
+		return
+	}
+	if !judge("another-connection-after-a-silent-one-was-closed", serve(third, key+10)) {
+		return
+	}
+	third.Close()
+	// the silent one speaks at last
+	judge("the-silent-connection-speaks-later", serve(silent, key+20))
+}
+
 func TestVerifC02(t *testing.T) {
 	e2e.Quiet()
 	rec := vcommon.Open()
@@ -643,8 +763,15 @@ func TestVerifC02(t *testing.T) {
 			items = append(items, item{"quiet", c, 0})
 		}
 	}
+	for _, c := range []string{"tcp", "ws", "udp", "tcp+starttls"} {
+		items = append(items, item{"silent", c, 0})
+	}
 	for idx, it := range items {
 		if !rec.Mine(idx) {
+			continue
+		}
+		if it.Kind == "silent" {
+			runSilentStream(rec, it.Carrier)
 			continue
 		}
 		if it.Kind == "quiet" {
@@ -704,5 +831,7 @@ func startFor(c *scriptCase) (*e2e.Pair, error) {
 	}
 	// a fourth listener asks the server for a channel name it does not offer: such a connection is refused
 	chans = append(chans, e2e.ChanSpec{Name: "chx"})
+	// a fifth channel is offered by the server, but its target is down
+	chans = append(chans, e2e.ChanSpec{Name: "chd", Dead: true})
 	return e2e.Start(e2e.Options{Carrier: c.Carrier, Channels: chans, Tag: "c", ListenerNames: map[string]string{"chx": "not-offered-by-the-server"}})
 }
